@@ -107,6 +107,8 @@ def mutants(only=None, tier="quick", check_tests=True):
                 hit = cp.returncode == 1 and ("VIOLATION property=%s" % pid) in cp.stdout
                 caught.append((pid, hit, cp.returncode, [l for l in cp.stdout.splitlines() if l.startswith("  what") or l.startswith("  invariant")][:2]))
             verdict = "CAUGHT" if all(c[1] for c in caught) else "MISSED"
+            if verdict == "MISSED" and meta.get("expected_miss"):
+                verdict = "MISSED-AS-RECORDED (%s)" % meta["expected_miss"]
             if tests_ok is False:
                 verdict += " (baseline suite FAILS with this patch: not a realistic mutant)"
             results.append((name, verdict, caught))
@@ -120,7 +122,7 @@ def mutants(only=None, tier="quick", check_tests=True):
                 print("      %s rc=%s %s" % (pid, rc, " | ".join(x.strip() for x in lines)[:300]))
         else:
             print("      " + str(info)[:300])
-        if not verdict.startswith("CAUGHT"):
+        if not verdict.startswith(("CAUGHT", "MISSED-AS-RECORDED")):
             missed += 1
     print("mutants: %d, not caught: %d" % (len(results), missed))
     # replays written while checking mutants describe the scratch copy, not /repo
